@@ -346,6 +346,8 @@ def run_check(prop, tier, seed, jobs=None):
             "queries_by_verdict": dict(qtot),
             "solver_s_feasibility": round(tot["solver_s"], 2), "solver_s_final": round(final_s, 2),
             "nonlinear_products": int(tot["nonlinear_products"]),
+            "second_solver": {"solver": "cvc5 1.4.0 (python wheel) on the SMT-LIB2 text of the final query", "queries_rechecked": int(tot["second_solver_checks"]),
+                              "agreements": int(tot["second_solver_agreements"]), "policy": "every sat and every VERIF_CVC5_EVERY-th final query; a disagreement makes the run inconclusive (exit 2)"},
             "regions_required": need, "regions_reached": sorted(regions),
             "oracle_mutants": {"run": mutants_expected, "refuted": mutants_refuted},
             "replays_run": replays_run, "replay_mismatches": mismatches, "candidates_not_confirmed_by_replay": soft_unconfirmed,
